@@ -18,4 +18,5 @@ func init() {
 	add("C14", apiQuirkCases)
 	add("C15", backpressureCases)
 	add("C04", backpressureCases)
+	add("C10", backpressureCases)
 }
